@@ -167,15 +167,15 @@ class Parser_call_function:
         if not forall(0, len(actual), lambda j: same(hc[0].args[j], actual[j])):
             return False
         if not out.ret:
-            # only a listener (host code) may make the call itself fail; an error raised by the function is a value (C08)
-            return hc[0].returned or out.exc != 'XLError' or len(emits(self)) == 1
+            # only a listener (host code) may make the call itself fail; an error or exception raised by the function is a value (C08)
+            return len(emits(self)) == 1
         if not one_emit(self, 'callFunction'):
             return False
         # the value: what the function returned - unless a listener's setter replaced it (never by None)
         if hc[0].returned:
             return same(out.value, last_not_none(hc[0].ret, setter_values()))
-        # ... or the error it raised (C08), likewise
-        return len(setter_values()) >= 1 or is_err(out.value)
+        # ... or the error it raised (C08; #ERROR! for any other exception), likewise
+        return is_err(last_not_none(out.value, [])) or len(setter_values()) >= 1
 
 
 @contract('hotxlfp.parser:Parser.set_variable', props=['C09'])
